@@ -181,6 +181,100 @@ class CardElem:
         return z3.And(t >= 0, t <= 51)
 
 
+def elem_sort(elem):
+    st = getattr(elem, 'sort', None)
+    return st if st is not None else z3.IntSort()
+
+
+class RecordElem:
+    """Sequence element that is a frozen record (dataclass / NamedTuple) of scalar fields, stored
+    as a z3 datatype.  fields: list of (name, scalar elem | ('tuple', [scalar elems]))."""
+
+    _cache = {}
+
+    def __init__(self, cls, fields):
+        self.cls = cls
+        self.fields = fields
+        key = (cls, tuple((n, repr(type(e))) for n, e in fields))
+        hit = RecordElem._cache.get(cls)
+        if hit is None:
+            dt = z3.Datatype('R_' + cls.__name__)
+            flat = []
+            for n, e in fields:
+                if isinstance(e, tuple):
+                    for i, _ in enumerate(e[1]):
+                        flat.append((f'{n}_{i}', z3.IntSort()))
+                else:
+                    flat.append((n, z3.IntSort()))
+            dt.declare('mk', *flat)
+            dt = dt.create()
+            hit = RecordElem._cache[cls] = dt
+        self.sort = hit
+
+    def _parts(self):
+        out = []
+        k = 0
+        for n, e in self.fields:
+            if isinstance(e, tuple):
+                out.append((n, [(k + i, x) for i, x in enumerate(e[1])], True))
+                k += len(e[1])
+            else:
+                out.append((n, [(k, e)], False))
+                k += 1
+        return out
+
+    def wrap(self, t):
+        vals = {}
+        for n, comps, is_tuple in self._parts():
+            xs = [e.wrap(z3.simplify(self.sort.accessor(0, i)(t))) for i, e in comps]
+            vals[n] = tuple(xs) if is_tuple else xs[0]
+        return SObj(self.cls, vals, frozen=True)
+
+    def unwrap(self, v):
+        args = []
+        for n, comps, is_tuple in self._parts():
+            x = v.fields[n] if isinstance(v, SObj) else getattr(v, n)
+            xs = list(x) if is_tuple else [x]
+            if len(xs) != len(comps):
+                raise EngineError(f'record field {n}: expected {len(comps)} components')
+            for (i, e), y in zip(comps, xs):
+                args.append(e.unwrap(y))
+        return self.sort.constructor(0)(*args)
+
+    def typ(self, t):
+        cs = []
+        for n, comps, _ in self._parts():
+            for i, e in comps:
+                c = e.typ(self.sort.accessor(0, i)(t))
+                if c is not None:
+                    cs.append(c)
+        return z3.And(cs) if cs else None
+
+
+class ListUpTo(Shape):
+    """Python list of 0..maxlen items of one shape; the exploration forks over the length, so the
+    list has a concrete length on every path."""
+
+    def __init__(self, item, maxlen):
+        self.item = item
+        self.maxlen = maxlen
+
+    def sample(self, rng):
+        return SList([self.item.sample(rng) for _ in range(rng.randint(0, self.maxlen))])
+
+    def fresh(self, ctx, name):
+        k = ctx.fresh_int(name + '_len')
+        ctx.assume_type(z3.And(k >= 0, k <= self.maxlen))
+        n = ctx.decide_among(k, list(range(self.maxlen + 1)))
+        return SList([self.item.fresh(ctx, f'{name}_{i}') for i in range(n)])
+
+    def havoc(self, ctx, obj, name):
+        k = ctx.fresh_int(name + '_len')
+        ctx.assume_type(z3.And(k >= 0, k <= self.maxlen))
+        n = ctx.decide_among(k, list(range(self.maxlen + 1)))
+        obj.items = [self.item.fresh(ctx, f'{name}_{i}') for i in range(n)]
+
+
 class Seq(Shape):
     """List of symbolic length with scalar elements."""
 
@@ -201,14 +295,14 @@ class Seq(Shape):
         ctx.assume_type(n >= 0)
         if self.maxlen is not None:
             ctx.assume_type(n <= self.maxlen)
-        arr = z3.Array(ctx.fresh_name(name + '_arr'), z3.IntSort(), z3.IntSort())
+        arr = z3.Array(ctx.fresh_name(name + '_arr'), z3.IntSort(), elem_sort(self.elem))
         return SSeq(n, arr, self.elem)
 
     def havoc(self, ctx, obj, name):
         n = ctx.fresh_int(name + '_len')
         ctx.assume_type(n >= 0)
         obj.n = n
-        obj.arr = z3.Array(ctx.fresh_name(name + '_arr'), z3.IntSort(), z3.IntSort())
+        obj.arr = z3.Array(ctx.fresh_name(name + '_arr'), z3.IntSort(), elem_sort(self.elem))
 
 
 class Vec(Shape):
@@ -280,7 +374,7 @@ class Dict(Shape):
     def havoc(self, ctx, obj, name):
         for k, s in self.d.items():
             cur = obj.d.get(k)
-            if isinstance(cur, V.Mut):
+            if isinstance(cur, V.Mut) and not isinstance(s, (Opt, OneOf, Const)):
                 s.havoc(ctx, cur, f'{name}_{self._kn(k)}')
             else:
                 obj.d[k] = s.fresh(ctx, f'{name}_{self._kn(k)}')
@@ -303,7 +397,8 @@ class Obj(Shape):
     def havoc(self, ctx, obj, name):
         for k, s in self.fields.items():
             cur = obj.fields.get(k)
-            if isinstance(cur, V.Mut) and not (isinstance(cur, SObj) and cur.frozen):
+            if isinstance(cur, V.Mut) and not (isinstance(cur, SObj) and cur.frozen) and \
+                    not isinstance(s, (Opt, OneOf, Const)):
                 s.havoc(ctx, cur, f'{name}.{k}')
             else:
                 obj.fields[k] = s.fresh(ctx, f'{name}.{k}')
@@ -364,8 +459,9 @@ class FnContract:
             cfn = d.get('raises_' + exc.__name__)
             self.raises[exc] = (kind, _plain(cfn) if cfn is not None else None)
         self.result_fn = _plain(d['result']) if 'result' in d else None
-        self.functional = self.result_fn is not None
         self.modifies = list(d.get('modifies', []))
+        # functional = pure: the call is replaced by the spec expression, nothing is havocked
+        self.functional = self.result_fn is not None and not self.modifies
         self.loops = dict(d.get('loops', {}))
         self.is_init = fn.__name__ == '__init__'
         self.skip_inv_at_call = d.get('skip_inv_at_call', False)
